@@ -232,6 +232,36 @@ fn carrier_name(cs: &[Carrier], i: usize) -> &'static str {
 
 const CRATE_PRELUDE: &str = "pub struct P; // a payload type with no derives and no trait implementations at all\n";
 
+/// Identifier-like string literals of the generator's source (upper-case initial, not a prelude item): names it may
+/// treat specially. Harvested, so that a special case added later enters by itself.
+pub fn generator_literals() -> Vec<String> {
+    let text = std::fs::read_to_string(repo().join("kiki/src/pipeline/table_to_rust.rs")).unwrap_or_default();
+    // only the part before the unit tests
+    let text = text.split("#[cfg(test)]").next().unwrap_or("").to_string();
+    let mut out: BTreeSet<String> = BTreeSet::new();
+    let b = text.as_bytes();
+    let mut i = 0;
+    while i < b.len() {
+        if b[i] == b'"' {
+            let mut j = i + 1;
+            while j < b.len() && b[j] != b'"' && b[j] != b'\\' && b[j] != b'\n' {
+                j += 1;
+            }
+            if j < b.len() && b[j] == b'"' {
+                let lit = &text[i + 1..j];
+                if !lit.is_empty() && lit.len() <= 24 && lit.chars().next().map(|c| c.is_ascii_uppercase()).unwrap_or(false) && lit.chars().all(|c| c.is_ascii_alphanumeric() || c == '_') && legal(lit) {
+                    out.insert(lit.to_string());
+                }
+                i = j + 1;
+                continue;
+            }
+        }
+        i += 1;
+    }
+    out.insert("Error".into());
+    out.into_iter().collect()
+}
+
 fn compile_finding(source: &str, carrier: &str, renames: &[(String, String)], err: &str) -> Finding {
     Finding::new(
         "compile_case",
@@ -397,6 +427,30 @@ pub fn run(ctx: &Ctx) -> Outcome {
         }
     }
     let shape_modules = cases.len() - before_shapes;
+    // a restricted deviation 2 for the quick tier: a helper name in one role together with a name the generator
+    // itself mentions (every identifier-like string literal of table_to_rust.rs: variant prefixes, `Error`, ...) in
+    // another role, on the first carrier - the pairs where two of the generator's own special cases can meet
+    let before_special = cases.len();
+    let special = generator_literals();
+    {
+        let rs = roles(&cs[0]);
+        let upper_roles: Vec<&String> = rs.iter().filter(|r| r.1 == RoleKind::Upper).map(|r| &r.0).collect();
+        for ra in &upper_roles {
+            for rb in &upper_roles {
+                if ra == rb || !(ra.starts_with('n') || ra.starts_with("tok")) {
+                    continue;
+                }
+                for h in helpers {
+                    for sp in &special {
+                        if *sp != h {
+                            try_case(0, vec![((*ra).clone(), h.to_string()), ((*rb).clone(), sp.clone())], &mut cases, &mut skipped_not_ok);
+                        }
+                    }
+                }
+            }
+        }
+    }
+    let special_pair_modules = cases.len() - before_special;
     let deviation1 = cases.len();
     if ctx.tier == Tier::Thorough {
         // deviation 2: every pair of assignments over the curated pools, on the three main carriers
@@ -438,6 +492,8 @@ pub fn run(ctx: &Ctx) -> Outcome {
         "deviation_1_modules_and_uniquifier_chains": deviation1,
         "deviation_2_modules": cases.len() - deviation1,
         "name_relation_modules": name_relation_modules,
+        "helper_name_x_generator_literal_pairs": special_pair_modules,
+        "generator_literals": special,
         "grammar_shape_modules": shape_modules,
         "grammar_shape_scopes": shape_scopes,
         "pool_upper_case": upper1.len(), "pool_lower_case": lower1.len(),
